@@ -34,6 +34,10 @@ func constIntVal(c *eng.Ctx, rule, name string) (int64, bool) {
 		return 0, false
 	}
 	i, exact := constant.Int64Val(constant.ToInt(v))
+	if !exact {
+		// never fail silently: a caller that returns early on !ok would pass vacuously
+		c.Unk(rule, "anchor:"+name+":integer", token.NoPos, "constant %s is not an integer constant (%s)", name, v.Kind())
+	}
 	return i, exact
 }
 
